@@ -307,7 +307,8 @@ func (d *Decoder) readUntypedList(tag byte) (interface{}, error) {
 			aryValue = reflect.Append(aryValue, EnsureRawValue(it))
 			holder.change(aryValue)
 		} else {
-			ary[j] = it
+			// a reference arrives wrapped in a reflect.Value / ref holder
+			ary[j], _ = EnsureInterface(it, nil)
 		}
 	}
 
